@@ -469,7 +469,8 @@ func (wf *Workflow[I, O]) compile(ctx context.Context, options *graphCompileOpti
 	}
 	wf.workflowBranches = nil // added; compiling again must not add them a second time
 
-	for _, n := range wf.workflowNodes {
+	for _, nodeKey := range sortedKeys(wf.workflowNodes) {
+		n := wf.workflowNodes[nodeKey]
 		for _, addInput := range n.addInputs {
 			if err := addInput(); err != nil {
 				return nil, err
@@ -478,14 +479,16 @@ func (wf *Workflow[I, O]) compile(ctx context.Context, options *graphCompileOpti
 		n.addInputs = nil
 	}
 
-	for _, n := range wf.workflowNodes {
+	for _, nodeKey := range sortedKeys(wf.workflowNodes) {
+		n := wf.workflowNodes[nodeKey]
 		if len(n.staticValues) > 0 {
 			if wf.g.compiled {
 				return nil, ErrGraphCompiled
 			}
 			value := make(map[string]any, len(n.staticValues))
 			var paths []FieldPath
-			for path, v := range n.staticValues {
+			for _, path := range sortedKeys(n.staticValues) {
+				v := n.staticValues[path]
 				value[path] = v
 				paths = append(paths, splitFieldPath(path))
 
